@@ -191,6 +191,57 @@ def check_resume_from_file(chk, r, n):
         c12.check_cfg(view, c12.gen_cfg(r, i), all_faults=True)
 
 
+def check_state_dictionary(chk, r, n, lines, keep_state):
+    """behavioural side of the ninth translator vocabulary (`Gen/SrcState.lean`): what the real `build_checkpoint_state` put into the
+    dictionary the callback was handed, after the run went on, and what the real `restore_from_checkpoint` reads from it (live dictionary or
+    the bytes pickled when the checkpoint was built) on ANOTHER sampler object, against the translated functions run by the Lean driver
+    (`ckstate`) on the same history / temperature / iteration / minimum step / generator state"""
+    import pickle
+
+    for i in range(n):
+        cfg = {"seed": int(r.integers(1, 10**5)), "dims": 2, "n_samples": 10, "kernel_steps": 1, "checkpoint_every": 1,
+               "like_width": float(r.choice([0.3, 0.6])), **([{}, {"min_step": 0.05}, {"max_n_steps": 6}, {"adaptive": False, "n_steps": 4}][i % 4])}
+        res = smcrun.run_smc(cfg, record_checkpoints=True)
+        if res["status"] != "done" or not res["ckpts"]:
+            continue
+        betas = [float(b) for b in res["sampler"].history.beta]
+        code = {}
+        enc = lambda v: code.setdefault(float(v), len(code) + 1)     # noqa: E731
+        for b in betas:
+            enc(b)
+        for j, ck in enumerate(res["ckpts"][:-1] if len(res["ckpts"]) > 1 else res["ckpts"]):
+            st = ck["state"]
+            it = int(st["iteration"])
+            route = ("dict", "bytes")[(i + j) % 2]
+            has_rng2 = (i + j) % 3 != 2
+            s2, _ = smcrun.make_sampler(cfg, smcrun.Target(2))
+            s2.rng = np.random.default_rng(4242) if has_rng2 else np.random.RandomState(7)     # RandomState has no `bit_generator`
+            case = {"level": "state_dictionary", "cfg": cfg, "checkpoint_index": j, "route": route, "restorer_has_bit_generator": has_rng2}
+            chk.count("state_dictionary")
+            chk.case(None, json.dumps(case))
+            try:
+                smp, beta, iteration = s2.restore_from_checkpoint(st if route == "dict" else ck["bytes"])
+            except Exception as e:   # noqa
+                chk.fail("resumed run completes", case, repr(e)[:200], {"clause": "raise", "level": "state_dictionary"})
+                continue
+            saved_rng = pickle.loads(ck["bytes"])["rng_state"]
+            rng_now = s2.rng.bit_generator.state if has_rng2 else None
+            fresh_rng = np.random.default_rng(4242).bit_generator.state
+            rng_code = "none" if not has_rng2 else ("some 41" if pickle.dumps(rng_now) == pickle.dumps(saved_rng) else "some 0" if pickle.dumps(rng_now) == pickle.dumps(fresh_rng) else "some 99")
+            ms = s2._restored_min_step
+            pop_ok = np.array_equal(ns.to_np(smp.x), ns.to_np(pickle.loads(ck["bytes"])["samples"].x))
+            h2 = [enc(b) for b in s2.history.beta]
+            hd = [enc(b) for b in st["history"].beta]
+            impl = " ".join(["5" if pop_ok else "0", str(enc(beta)), str(iteration), str(len(h2))] + [str(v) for v in h2]) + " | " + rng_code + " | " + \
+                   ("none" if ms is None else f"some {enc(ms)}") + " | " + " ".join(str(v) for v in hd)
+            later = [[enc(b) for b in betas[:k]] for k in range(it + 1, len(betas) + 1)]
+            line = " ".join(["f64", "ckstate", str(it)] + [str(enc(b)) for b in betas[:it]] + ["5", str(it), str(enc(betas[it - 1]) if it else 0)]
+                            + [str(-1 if ck["state"]["meta"]["min_step"] is None else enc(ck["state"]["meta"]["min_step"])), "41", str(len(later))]
+                            + [" ".join([str(len(h))] + [str(v) for v in h]) for h in later] + ["0" if has_rng2 else "-1", route])
+            lines.append(line)
+            keep_state.append((case, " ".join(impl.split())))
+
+
 def check_reused_sampler(chk, r, n):
     """the SAME sampler object serves a second `sample()` run (another seed: a second chain, a repeat with more steps): every checkpoint
     the second run writes - in particular its first one, also when it falls on the iteration count at which the first run ended - resumes,
@@ -248,6 +299,14 @@ def run(chk: core.Check):
         run_cfg(chk, cfg, mode, lines, keep, all_faults=True)
     check_resume_from_file(chk, r, 8 if quick else 60)
     check_reused_sampler(chk, np.random.default_rng(chk.seed + 1109), 12 if quick else 120)
+    st_lines, st_keep = [], []
+    check_state_dictionary(chk, np.random.default_rng(chk.seed + 1110), 8 if quick else 80, st_lines, st_keep)
+    for (case, impl), rep in zip(st_keep, drv.batch(st_lines)):
+        if not rep.ok:
+            raise core.HarnessError(rep.err)
+        model = " ".join(rep.rest()) if hasattr(rep, "rest") else None
+        if model != impl:
+            chk.disagree("checkpoint_state_dictionary", case, model, impl)
     reps = drv.batch(lines)
     for (case, R, from_iter, done_iters, ev), rep in zip(keep, reps):
         if not rep.ok:
